@@ -200,8 +200,10 @@ def gen_cases(tier, seed):
             cases.append(dict(kind="special", what="big-norm-eps", m=m, n=n, idx=blk))
     for k in range(4):
         cases.append(dict(kind="special", what="wide-zero-columns", k=k))
-    for k in range(2):
+    for k in range(3):
         cases.append(dict(kind="special", what="native-seed", k=k))
+    for k in range(2):
+        cases.append(dict(kind="special", what="instance-reuse", k=k))
     for m in (26, 30):
         for off in (0.0, 1e4):
             cases.append(dict(kind="special", what="tall-krum-float32", m=m, offset=off))
@@ -607,7 +609,10 @@ def run_special(case, ctx):
     elif what == "native-seed":
         # the SAME instance of a randomised aggregator, torch.manual_seed before every call (no replayed draws): a second call must
         # behave like the first, and the draws must not depend on the column layout
-        mats = [np.array([[1.0, -2.0, 0.5], [-1.0, 1.0, 2.0], [0.5, 0.5, -1.0]]), np.array([[1.0, 0.0, 1.0], [-1.0, 1.0, 0.0], [-0.5, -2.0, 0.5], [0.25, -1.0, -1.0]])]
+        mats = [np.array([[1.0, -2.0, 0.5], [-1.0, 1.0, 2.0], [0.5, 0.5, -1.0]]), np.array([[1.0, 0.0, 1.0], [-1.0, 1.0, 0.0], [-0.5, -2.0, 0.5], [0.25, -1.0, -1.0]]),
+                # a conflict-free row EXACTLY orthogonal to another one, rows with two conflicting partners (the number of draws must not
+                # depend on the sign of rounding noise)
+                np.array([[1.0, 2.0, 3.0, 0.0], [3.0, 0.0, -1.0, 0.0], [1.0, 0.0, 1.0, -2.0], [-1.0, 1.0, 0.0, 1.0]])]
         J = mats[case["k"]]
         n = J.shape[1]
         s = A.sigma_max(J)
@@ -628,11 +633,60 @@ def run_special(case, ctx):
                     y = run(J[:, list(perm)])
                     ctx.compare(f"special:native-seed:{name}", float(np.abs(y - x[list(perm)]).max()), 1e-9 * s, f"perm:{name}:native-seed",
                                 lambda: f"{name} J={J.tolist()} columns {list(perm)} manual_seed({seed_}): {y.tolist()} vs {x[list(perm)].tolist()}")
+                for (i_, j_) in itertools.combinations(range(n), 2):
+                    for th in (math.pi / 7, 1.0, 2.5):
+                        Q = _givens(n, i_, j_, th)
+                        y = run(J @ Q)
+                        ctx.compare(f"special:native-seed:{name}", float(np.abs(y - x @ Q).max()), 1e-9 * s, f"orthogonal:{name}:native-seed",
+                                    lambda: f"{name} J={J.tolist()} Givens({i_},{j_},{th:.3g}) manual_seed({seed_}): A(JQ)={y.tolist()} A(J)Q={(x @ Q).tolist()}")
                 y = run(np.hstack([J, np.zeros((J.shape[0], 2))]))
                 ctx.compare(f"special:native-seed:{name}", max(float(np.abs(y[:n] - x).max()), float(np.abs(y[n:]).max())), 1e-9 * s,
                             f"zero-column:{name}:native-seed", lambda: f"{name} J={J.tolist()} + 2 zero columns, manual_seed({seed_}): {y.tolist()} vs {x.tolist()}")
             ctx.nontrivial += 1
             ctx.outcomes.add(f"ns:{name}:{case['k']}")
+    elif what == "instance-reuse":
+        # ONE instance per aggregator fed a sequence of temporaries of the same shape (what backward() produces at every step: the
+        # previous Jacobian is freed, the next one is often allocated at the same address), then a square matrix and its transposed
+        # VIEW: every result must be bit-identical to a new instance's on a new tensor
+        w3 = torch.tensor([1.0, -2.0, 3.0], dtype=torch.float64)
+        makers = [("UPGrad", lambda: T.UPGrad()), ("DualProj", lambda: T.DualProj()), ("MGDA", lambda: T.MGDA()), ("CAGrad", lambda: T.CAGrad(c=0.5)),
+                  ("IMTLG", lambda: T.IMTLG()), ("AlignedMTL", lambda: T.AlignedMTL()), ("ConFIG", lambda: T.ConFIG()), ("Mean", lambda: T.Mean()),
+                  ("Sum", lambda: T.Sum()), ("Krum", lambda: T.Krum(0, 1)), ("TrimmedMean", lambda: T.TrimmedMean(1)), ("Constant", lambda: T.Constant(w3))]
+        ncol = 50 if case["k"] == 0 else 3
+
+        def gen(i):
+            return np.array([[math.sin(1.3 * r + 0.7 * c_ + 0.9 * i) + (0.5 if r == c_ % 3 else 0.0) for c_ in range(ncol)] for r in range(3)])
+
+        for name, mk in makers:
+            inst = mk()
+            for i in range(6):
+                Jn = gen(i)
+                ctx.execs += 2
+                try:
+                    x = inst(torch.tensor(Jn, dtype=torch.float64) * 1.0).numpy().copy()  # "* 1.0": a temporary, freed right after the call
+                    y = mk()(torch.tensor(Jn, dtype=torch.float64)).numpy()
+                except Exception as e:
+                    ctx.viol.append(dict(sig=f"exception:special:{name}:{type(e).__name__}", msg=f"instance-reuse {name}: {e!r}"[:300]))
+                    break
+                if x.tobytes() != y.tobytes():
+                    ctx.viol.append(dict(sig=f"result-depends-on-earlier-calls:{name}", cls=f"reuse:{name}",
+                                         msg=f"{name}: call #{i} of one instance on a temporary {Jn.shape} matrix gives {x[:4].tolist()}..., a new instance gives {y[:4].tolist()}..."))
+                    break
+            if ncol == 3:
+                Jt = torch.tensor(gen(7), dtype=torch.float64)
+                try:
+                    inst2 = mk()
+                    inst2(Jt)
+                    x = inst2(Jt.T).numpy().copy()
+                    y = mk()(Jt.T.contiguous()).numpy()
+                    ctx.execs += 3
+                    if float(np.abs(x - y).max()) > 1e-9 * A.sigma_max(gen(7)):
+                        ctx.viol.append(dict(sig=f"result-depends-on-earlier-calls:{name}:transposed-view", cls=f"reuse-T:{name}",
+                                             msg=f"{name}: J then its view J.T on one instance gives {x.tolist()}, a new instance on J.T gives {y.tolist()}"))
+                except Exception as e:
+                    ctx.viol.append(dict(sig=f"exception:special:{name}:{type(e).__name__}", msg=f"instance-reuse (view) {name}: {e!r}"[:300]))
+            ctx.nontrivial += 1
+            ctx.outcomes.add(f"ir:{name}:{case['k']}")
     else:  # tall-krum-float32
         m, off = case["m"], case["offset"]
         n = 3
@@ -652,14 +706,14 @@ def run_special(case, ctx):
                 y = call(agg, J32[:, list(perm)], torch.float32)
                 if y is not None:
                     err = float(np.abs(y - x[list(perm)]).max())
-                    ctx.compare("special:tall-krum-float32:perm", err, 1e-6 * max(1.0, off), "perm:Krum:tall-float32",
+                    ctx.compare("special:tall-krum-float32:perm", err, 16 * 1.2e-7 * max(1.0, float(np.abs(x).max())), "perm:Krum:tall-float32",
                                 lambda: f"Krum({f},{k}) float32 {m}x{n} rows offset {off:g}: A(J[:,{list(perm)}])={y.tolist()} A(J)[perm]={x[list(perm)].tolist()}")
             for pos in range(n + 1):
                 Jz = np.insert(J32, pos, 0.0, axis=1)
                 y = call(agg, Jz, torch.float32)
                 if y is not None:
                     err = max(float(np.abs(np.delete(y, pos) - x).max()), abs(float(y[pos])))
-                    ctx.compare("special:tall-krum-float32:zero-column", err, 1e-6 * max(1.0, off), "zero-column:Krum:tall-float32",
+                    ctx.compare("special:tall-krum-float32:zero-column", err, 16 * 1.2e-7 * max(1.0, float(np.abs(x).max())), "zero-column:Krum:tall-float32",
                                 lambda: f"Krum({f},{k}) float32 {m}x{n} rows offset {off:g}, zero column at {pos}: {y.tolist()} vs {x.tolist()}")
             ctx.nontrivial += 1
             ctx.outcomes.add(f"tk:{m}:{off}:{f}:{k}:" + digest(np.round(x, 3).tolist()))
